@@ -16,6 +16,7 @@ UNITS = {
     'votor': {'template': 'units/votor/unit.rs', 'serves': ['C05', 'C18'], 'min_verified': 60},
     'parent_ready': {'template': 'units/parent_ready/unit.rs', 'serves': ['C07'], 'min_verified': 64},
     'repair': {'template': 'units/repair/unit.rs', 'serves': ['C14', 'C15', 'C10'], 'min_verified': 16},
+    'producer': {'template': 'units/producer/unit.rs', 'serves': ['C10'], 'min_verified': 10},
     'slot_state': {'template': 'units/slot_state/unit.rs', 'serves': ['C03', 'C04', 'C06'], 'min_verified': 88},
 }
 
